@@ -97,6 +97,21 @@ class Gen:
                 for k in pres:
                     self.contents[k] = (self.contents[k][0], (self.contents[k][1] + add) & M64)
             return
+        if getattr(self, "forget", False) and r.random() < 0.2:
+            c = r.choice(["forget_drain", "forget_iter", "forget_entry", "forget_extractif"])
+            if c in ("forget_drain", "forget_iter"):
+                n = r.choice([0, 1, 2, len(self.contents) // 2, len(self.contents), len(self.contents) + 3])
+                self.emit(f"{c} {n}"); self.contents = {}
+            elif c == "forget_entry":
+                k = self.present() if r.random() < 0.5 and self.contents else self.anykey()
+                self.emit(f"forget_entry {k} {self.st()}")
+            else:
+                sel = [x for x in range(self.nkeys) if r.random() < 0.4]
+                nsel = len([x for x in sel if x in self.contents])
+                n = r.choice([0, 1, nsel // 2 + 1, nsel + 2])
+                self.emit(f"forget_extractif {n} " + " ".join(map(str, sel)))
+                self.resync = True
+            return
         c = r.choice(["getmut", "tryinsert", "entry_or_insert", "entry_insert", "entry_remove", "entry_and_modify",
                       "entry_drop", "retain", "extend", "drain", "extractif", "iter", "iterfold", "reserve",
                       "tryreserve", "shrinkto", "shrinktofit", "clear", "len", "capacity", "allocsize", "withcap",
@@ -156,7 +171,7 @@ class Gen:
 
 ARMS = ["hashpanic_nth", "hashpanic_nth", "hashpanic_key", "eqpanic_nth", "droppanic_nth", "clonepanic_nth", "predpanic_nth", "refuse_nth"]
 
-def make_script(rng, name, kind=None, plan=None, nkeys=None, length=None, clone_ops=False, faults=0.0, calldep=None, arms=None, many=False):
+def make_script(rng, name, kind=None, plan=None, nkeys=None, length=None, clone_ops=False, faults=0.0, calldep=None, arms=None, many=False, forget=False):
     """faults: probability that an operation is preceded by an `arm` line (the k-th callback of a
     class panics / the allocator refuses); calldep: "hash" / "eq" / "both" = inconsistent Hash / Eq."""
     kind = kind or rng.choice(["map-drop", "map-drop", "map-plain"])
@@ -166,6 +181,7 @@ def make_script(rng, name, kind=None, plan=None, nkeys=None, length=None, clone_
     g = Gen(rng, nkeys, plan, kind)
     g.resync = False
     g.many = many
+    g.forget = forget
     g.header()
     if calldep in ("hash", "both"):
         g.emit("hashrule calldep")
